@@ -64,6 +64,18 @@ int __wrap_gettimeofday(struct timeval *tv, void *tz)
     return 0;
 }
 
+/* on x86_64 the library's psGetTime reads CLOCK_MONOTONIC (USE_HIGHRES_TIME) */
+int __wrap_clock_gettime(clockid_t id, struct timespec *ts)
+{
+    (void) id;
+    if (ts)
+    {
+        ts->tv_sec = g_now;
+        ts->tv_nsec = g_usec * 1000L;
+    }
+    return 0;
+}
+
 time_t __wrap_time(time_t *t)
 {
     if (t)
@@ -204,7 +216,7 @@ typedef struct
 } keyset_t;
 static keyset_t g_keys[MAXKEYS];
 
-#define MAXSID 32
+#define MAXSID 160
 typedef struct
 {
     char name[24];
@@ -1257,6 +1269,7 @@ static void cmd_new(char **tok, int ntok)
     emit_begin(&g_out, "new", e);
     emit_state(&g_out, e);
     if (rc < 0) sb_printf(&g_out, ",\"rcn\":%d", rc);
+    sb_printf(&g_out, ",\"sidn\":\"%s\"", (!e->server && opt_get(tok, ntok, "sid")) ? opt_get(tok, ntok, "sid") : "-");
     emit_end(&g_out);
 }
 
@@ -1736,6 +1749,11 @@ static void cmd_hsedit(char **tok, int ntok)
     }
 }
 
+static uint32_t fp_bytes(const unsigned char *p, int n)
+{
+    return fnv(2166136261u, p, n);
+}
+
 static void cmd_state(char **tok)
 {
     ep_t *e = ep_get(tok[1]);
@@ -1745,12 +1763,101 @@ static void cmd_state(char **tok)
     emit_state(&g_out, e);
     if (e->ssl)
     {
-        int i;
-        sb_printf(&g_out, ",\"suite\":%d,\"ms\":\"", e->ssl->cipher ? e->ssl->cipher->ident : 0);
-        for (i = 0; i < 8; i++) sb_printf(&g_out, "%02x", e->ssl->sec.masterSecret[i]);
+        ssl_t *s = e->ssl;
+        int i, sidx = -1;
+        const char *rmode = "none";
+        sb_printf(&g_out, ",\"suite\":%d,\"ms\":\"", s->cipher ? s->cipher->ident : 0);
+        for (i = 0; i < 8; i++) sb_printf(&g_out, "%02x", s->sec.masterSecret[i]);
         sb_printf(&g_out, "\"");
+        /* session identity (C14) */
+        if (s->sessionIdLen >= 4) sidx = s->sessionId[0] | (s->sessionId[1] << 8) | (s->sessionId[2] << 16) | ((s->sessionId[3] & 0x3f) << 24);
+#ifdef USE_STATELESS_SESSION_TICKETS
+        if (e->server && s->sid && s->sid->sessionTicketState == SESS_TICKET_STATE_USING_TICKET) rmode = "ticket";
+        else
+#endif
+        if (matrixSslIsResumedSession(s)) rmode = USING_TLS_1_3(s) ? "psk" : "id";
+        sb_printf(&g_out, ",\"msfp\":\"%08x\",\"sidlen\":%d,\"sidx\":%d,\"sidh\":\"%08x\",\"ems\":%d,\"rmode\":\"%s\"",
+            USING_TLS_1_3(s) ? fp_bytes(s->sec.tls13ResumptionMasterSecret, 32) : fp_bytes(s->sec.masterSecret, SSL_HS_MASTER_SIZE),
+            (int) s->sessionIdLen, sidx, fp_bytes(s->sessionId, s->sessionIdLen), (int) s->extFlags.extended_master_secret, rmode);
+        if (e->server && USING_TLS_1_3(s) && s->sec.tls13UsingPsk && s->sec.tls13ChosenPsk && s->sec.tls13ChosenPsk->pskKey)
+        {
+            sb_printf(&g_out, ",\"cpsk\":\"%08x\",\"cpskres\":%d", fp_bytes(s->sec.tls13ChosenPsk->pskKey, s->sec.tls13ChosenPsk->pskLen),
+                s->sec.tls13ChosenPsk->isResumptionPsk ? 1 : 0);
+        }
+        else sb_printf(&g_out, ",\"cpsk\":\"-\",\"cpskres\":0");
     }
+    sb_printf(&g_out, ",\"peer\":\"%s\"", e->peer ? e->peer->name : "-");
     emit_end(&g_out);
+}
+
+static sidslot_t *sid_find(const char *name)
+{
+    int k;
+    for (k = 0; k < MAXSID; k++) if (g_sids[k].used && !strcmp(g_sids[k].name, name)) return &g_sids[k];
+    return NULL;
+}
+
+/* sid <name>: what a client-side resumption handle holds (C14) */
+static void emit_sid(const char *ev, sidslot_t *sl)
+{
+    sslSessionId_t *sid = sl->sid;
+    int sidx = -1, tk = -1, n = 0;
+    psTls13Psk_t *p;
+    if (sid->idLen >= 4) sidx = sid->id[0] | (sid->id[1] << 8) | (sid->id[2] << 16) | ((sid->id[3] & 0x3f) << 24);
+    emit_begin(&g_out, ev, NULL);
+    sb_printf(&g_out, ",\"name\":\"%s\",\"idlen\":%d,\"idx\":%d,\"idh\":\"%08x\",\"msfp\":\"%08x\",\"cipher\":%d",
+        sl->name, (int) sid->idLen, sidx, fp_bytes(sid->id, sid->idLen), fp_bytes(sid->masterSecret, SSL_HS_MASTER_SIZE), (int) sid->cipherId);
+#ifdef USE_STATELESS_SESSION_TICKETS
+    if (sid->sessionTicket && sid->sessionTicketLen >= 16) tk = ((int) sid->sessionTicket[0] - 0xA0) / 7;
+    sb_printf(&g_out, ",\"ticklen\":%d,\"tkey\":%d,\"tickh\":\"%08x\",\"tstate\":%d", (int) sid->sessionTicketLen, tk,
+        sid->sessionTicket ? fp_bytes(sid->sessionTicket, sid->sessionTicketLen) : 0, (int) sid->sessionTicketState);
+#endif
+    sb_printf(&g_out, ",\"psks\":[");
+    for (p = sid->psk; p; p = p->next)
+    {
+        sb_printf(&g_out, "%s{\"idh\":\"%08x\",\"idlen\":%d,\"keyh\":\"%08x\",\"res\":%d,\"tkey\":%d}", n++ ? "," : "",
+            fp_bytes(p->pskId, p->pskIdLen), (int) p->pskIdLen, fp_bytes(p->pskKey, p->pskLen), p->isResumptionPsk ? 1 : 0,
+            p->pskIdLen >= 16 ? ((int) p->pskId[0] - 0xA0) / 7 : -1);
+    }
+    sb_printf(&g_out, "]");
+    emit_end(&g_out);
+}
+
+static void cmd_sid(char **tok, int ntok)
+{
+    sidslot_t *sl = sid_find(tok[1]);
+    (void) ntok;
+    if (!sl) { emit_begin(&g_out, "skip", NULL); sb_printf(&g_out, ",\"why\":\"no such sid\""); emit_end(&g_out); return; }
+    emit_sid("sid", sl);
+}
+
+/* sidedit <name> idlen=<n> | idxor=<off>,<v> | msxor=<off>,<v> | tickxor=<off>,<v> | ticklen=<n> | pskxor=<off>,<v> | pskidxor=<off>,<v>
+   (negative offsets count from the end); sidcopy <dst> <src> hands one client's handle to another */
+static int edit_arg(const char *v, int *off, int *val)
+{
+    const char *c = strchr(v, ',');
+    *off = atoi(v); *val = c ? (int) strtol(c + 1, NULL, 0) : 1;
+    return 0;
+}
+static void cmd_sidedit(char **tok, int ntok)
+{
+    sidslot_t *sl = sid_find(tok[1]);
+    sslSessionId_t *sid;
+    const char *v;
+    int off, val, done = 0;
+    if (!sl) { emit_begin(&g_out, "skip", NULL); sb_printf(&g_out, ",\"why\":\"no such sid\""); emit_end(&g_out); return; }
+    sid = sl->sid;
+    if ((v = opt_get(tok, ntok, "idlen"))) { int n = atoi(v); if (n >= 0 && n <= SSL_MAX_SESSION_ID_SIZE && sid->idLen > 0) { sid->idLen = (psSize_t) n; done = 1; } }
+    if ((v = opt_get(tok, ntok, "idxor"))) { edit_arg(v, &off, &val); if (off < 0) off += sid->idLen; if (off >= 0 && off < (int) sid->idLen) { sid->id[off] ^= (unsigned char) val; done = 1; } }
+    if ((v = opt_get(tok, ntok, "msxor"))) { edit_arg(v, &off, &val); if (off >= 0 && off < SSL_HS_MASTER_SIZE) { sid->masterSecret[off] ^= (unsigned char) val; done = 1; } }
+#ifdef USE_STATELESS_SESSION_TICKETS
+    if ((v = opt_get(tok, ntok, "tickxor"))) { edit_arg(v, &off, &val); if (off < 0) off += sid->sessionTicketLen; if (sid->sessionTicket && off >= 0 && off < (int) sid->sessionTicketLen) { sid->sessionTicket[off] ^= (unsigned char) val; done = 1; } }
+    if ((v = opt_get(tok, ntok, "ticklen"))) { int n = atoi(v); if (sid->sessionTicket && n >= 0 && n <= (int) sid->sessionTicketLen) { sid->sessionTicketLen = (psSize_t) n; done = 1; if (n == 0) { psFree(sid->sessionTicket, sid->pool); sid->sessionTicket = NULL; } } }
+#endif
+    if ((v = opt_get(tok, ntok, "pskxor"))) { edit_arg(v, &off, &val); if (sid->psk && off >= 0 && off < (int) sid->psk->pskLen) { sid->psk->pskKey[off] ^= (unsigned char) val; done = 1; } }
+    if ((v = opt_get(tok, ntok, "pskidxor"))) { edit_arg(v, &off, &val); if (sid->psk) { if (off < 0) off += sid->psk->pskIdLen; if (off >= 0 && off < (int) sid->psk->pskIdLen) { sid->psk->pskId[off] ^= (unsigned char) val; done = 1; } } }
+    if (!done) { emit_begin(&g_out, "skip", NULL); sb_printf(&g_out, ",\"why\":\"sidedit not applicable\""); emit_end(&g_out); return; }
+    emit_sid("sidedit", sl);
 }
 
 static int parse_cert_file(const char *path, psX509Cert_t **chain)
@@ -1877,6 +1984,22 @@ static void run_line(char *line)
     else if (!strcmp(tok[0], "close")) cmd_close(tok);
     else if (!strcmp(tok[0], "del")) cmd_del(tok);
     else if (!strcmp(tok[0], "state")) cmd_state(tok);
+    else if (!strcmp(tok[0], "sid")) cmd_sid(tok, ntok);
+    else if (!strcmp(tok[0], "sidedit")) cmd_sidedit(tok, ntok);
+    else if (!strcmp(tok[0], "tickkey"))
+    {
+        /* tickkey <K> add|del <n> : the server's ticket key list (the first key seals new tickets) */
+        keyset_t *ks = keys_get(tok[1]);
+        unsigned char name[16], sym[32], mac[32];
+        int32 rc;
+        if (ntok < 4) die("tickkey <K> add|del <n>");
+        ticket_key_material(atoi(tok[3]), name, sym, mac);
+        if (!strcmp(tok[2], "add")) rc = matrixSslLoadSessionTicketKeys(ks->keys, name, sym, 32, mac, 32);
+        else rc = matrixSslDeleteSessionTicketKey(ks->keys, name);
+        emit_begin(&g_out, "tickkey", NULL);
+        sb_printf(&g_out, ",\"name\":\"%s\",\"op\":\"%s\",\"k\":%d,\"rcn\":%d", ks->name, tok[2], atoi(tok[3]), rc);
+        emit_end(&g_out);
+    }
     else if (!strcmp(tok[0], "autoflush")) ep_get(tok[1])->autoflush = atoi(tok[2]);
     else if (!strcmp(tok[0], "validate")) cmd_validate(tok, ntok);
     else if (!strcmp(tok[0], "hsedit"))
